@@ -416,16 +416,20 @@ def run(ck: Check) -> None:
     n_max = 3 if ck.quick else 4
     for n in range(1, n_max + 1):
         for parents in itertools.product([None] + list(range(n + 1)), repeat=n):  # n + 1 = a missing template
-            tpl = {f"t{i}": (("{% extends 't" + str(p) + "' %}") if p is not None else "") + "{% block b %}" + str(i) + "{% endblock %}" for i, p in enumerate(parents)}
-            jobs.append({"templates": tpl})
-            meta.append(parents)
+            # the same chain under two naming schemes (the model identifies templates by index, so it covers both): flat names, and
+            # names with a folder and an extension (BoundTemplate.name is then not the name the extends tag was given)
+            for nm in ((lambda i: f"t{i}"), (lambda i: f"layouts/v{i}/t.liquid")):
+                tpl = {nm(i): (("{% extends '" + nm(p) + "' %}") if p is not None else "") + "{% block b %}" + str(i) + "{% endblock %}" for i, p in enumerate(parents)}
+                jobs.append({"templates": tpl, "name": nm(0)})
+                meta.append(parents)
     results = children(jobs, timeout=120, per=100)
-    for parents, r in zip(meta, results):
+    for ji, (parents, r) in enumerate(zip(meta, results)):
         ck.count("D.outcome." + r["outcome"])
-        ck.note_case(("D", parents), nontrivial=r["outcome"] != "ok")
+        ck.note_case(("D", parents, ji % 2), nontrivial=r["outcome"] != "ok")
         if r["outcome"] not in ("ok", "EInherit", "ENotFound"):
-            ck.violation("impl-violation", f"extends-chain-{r['outcome']}", f"extends chain {parents}: {r}",
-                         {"type": "render", "templates": jobs[meta.index(parents)]["templates"], "want": ["ok", "EInherit", "ENotFound"]})
+            if sum(1 for v in ck.violations if v.signature == f"extends-chain-{r['outcome']}") < 3:
+                ck.violation("impl-violation", f"extends-chain-{r['outcome']}", f"extends chain {parents} as {sorted(jobs[ji]['templates'])}: {r}",
+                             {"type": "render", "templates": jobs[ji]["templates"], "name": jobs[ji]["name"], "want": ["ok", "EInherit", "ENotFound"]})
             continue
         cases.append("{| xc_parent := [" + "; ".join("None" if p is None else f"Some {p}" for p in parents) + "] |}")
         expected.append("None" if r["outcome"] == "ok" else f"(Some {r['outcome']})")
@@ -496,7 +500,7 @@ def analyze_layer(ck: Check) -> None:
 def replay(data) -> int:
     case = data["case"]
     if case.get("type") == "render":
-        r = child([{k: v for k, v in case.items() if k in ("templates", "limit", "lax", "async")}], timeout=case.get("wall", 60))[0]
+        r = child([{k: v for k, v in case.items() if k in ("templates", "limit", "lax", "async", "name")}], timeout=case.get("wall", 60))[0]
         print("templates:", case["templates"])
         print("outcome:", r, "wanted one of", case["want"])
         bad = r["outcome"] not in case["want"]
